@@ -20,8 +20,8 @@ FIELDS = [['matches'], ['matches', 0], ['matches', 0, 'offset'], ['matches', 0, 
           # fields the shell does not read: they are passed through to the json report
           ['matches', 0, 'contextForSureMatch'], ['matches', 0, 'extra'], ['software']]
 TYPES = [None, True, 'x', 3, 1.5, [], {}, [1], {'a': 1}, float('inf'), float('-inf'), float('nan')]
-# perturbations of string values: line breaks, markup, an unpaired surrogate (valid JSON "\\ud800"), empty, long
-STRINGS = ['a\nb', 'a\r\nb\n', '<b>"&', 'http://x/<br>\ny', 'u"><i>x', '\ud800', 'x\udfffy', '', 'Ä' * 300, 'a\tb', '\x00', '\u2028']
+# perturbations of string values: backslashes (macro names quoted from the text, group references of a regular expression), line breaks, markup, an unpaired surrogate (valid JSON "\\ud800"), empty, long
+STRINGS = ['a\\qb', 'x \\quad y', '\\g<0>', '\\1\\2', 'end\\', 'a\nb', 'a\r\nb\n', '<b>"&', 'http://x/<br>\ny', 'u"><i>x', '\ud800', 'x\udfffy', '', 'Ä' * 300, 'a\tb', '\x00', '\u2028']
 STRING_FIELDS = [['matches', 0, 'message'], ['matches', 0, 'context', 'text'], ['matches', 0, 'replacements', 0, 'value'],
                  ['matches', 0, 'rule', 'id'], ['matches', 0, 'rule', 'subId'], ['matches', 0, 'rule', 'category', 'name'],
                  ['matches', 0, 'rule', 'urls', 0, 'value']]
